@@ -284,8 +284,6 @@ class Ctx:
             ia, ib = ib, ia
         # a is an unresolved root
         if ib:
-            if a.tainted and a.origin == 'gen' and False:
-                pass
             a.value = b
         else:
             b.parent = a
@@ -293,7 +291,6 @@ class Ctx:
 
     def unify_soft(self, a, b, what):
         'like unify, but a conflict that involves the (undocumented) inference of generated axes is not a listed rule'
-        ra, rb = self.resolve(a), self.resolve(b)
         taint = any(isinstance(x, LVar) and x.find().tainted for x in (a, b))
         try:
             self.unify(a, b, what)
